@@ -303,6 +303,11 @@ def handle (op : String) (args : List String) : String :=
       let w := streamOpEff m ty x body
       "ok\t" ++ (SExpr.list [.list (PyVal.toSExprL w.md), strsToSExpr w.log]).render
     | _, _, _ => bad
+  | "streamOpElab", [m, ty, lam] =>
+    -- the emitted lambda (Model/ElabSpec.lean): the specification of C07, run on the lambda the user wrote
+    match parseModel m, (SExpr.parse ty).bind parseTy, parseExpr lam with
+    | some m, some ty, some (.lam [x] body) => okE (streamOpElab m ty x body)
+    | _, _, _ => bad
   | "untypedHyp", [m, ty, lam] =>
     -- hypotheses of streamOp_untyped_identity: untyped item type, no call of a registered function by name
     match parseModel m, (SExpr.parse ty).bind parseTy, parseExpr lam with
